@@ -33,6 +33,7 @@ variable (idle : Nat) (s : St)
 @[simp] theorem touch_held : (touch s).held = s.held := by unfold touch; (repeat' split) <;> rfl
 @[simp] theorem touch_sock : (touch s).sock = s.sock := by unfold touch; (repeat' split) <;> rfl
 @[simp] theorem touch_clobbered : (touch s).clobbered = s.clobbered := by unfold touch; (repeat' split) <;> rfl
+@[simp] theorem touch_nextW : (touch s).nextW = s.nextW := by unfold touch; (repeat' split) <;> rfl
 @[simp] theorem touch_hist : (touch s).hist = s.hist := by unfold touch; (repeat' split) <;> rfl
 @[simp] theorem touch_mon : (touch s).mon = s.mon := by unfold touch; (repeat' split) <;> rfl
 
@@ -61,8 +62,12 @@ theorem touch_isAccepting (w : Wid) : isAccepting ((touch s).ws w) = isAccepting
 @[simp] theorem rmSock_held : (rmSock idle s).held = s.held := by unfold rmSock; split <;> rfl
 @[simp] theorem rmSock_sock : (rmSock idle s).sock = none := by unfold rmSock; split <;> simp_all
 @[simp] theorem rmSock_ws : (rmSock idle s).ws = s.ws := by unfold rmSock; split <;> rfl
+@[simp] theorem rmSock_nextW : (rmSock idle s).nextW = s.nextW := by unfold rmSock; split <;> rfl
+@[simp] theorem rmSock_hasMeta : (rmSock idle s).hasMeta = s.hasMeta := by unfold rmSock; split <;> rfl
 @[simp] theorem rmSock_clobbered : (rmSock idle s).clobbered = s.clobbered := by unfold rmSock; split <;> rfl
 @[simp] theorem rmSock_alive : (rmSock idle s).mon.alive = s.mon.alive := by
+  unfold rmSock; split <;> simp [Spec.LMon.step]
+@[simp] theorem rmSock_acc : (rmSock idle s).mon.acc = s.mon.acc := by
   unfold rmSock; split <;> simp [Spec.LMon.step]
 @[simp] theorem rmSock_badSpawn : (rmSock idle s).mon.badSpawn = s.mon.badSpawn := by
   unfold rmSock; split <;> simp [Spec.LMon.step]
@@ -87,20 +92,25 @@ end helpers
 
 /-- the lock-file inode on which the process holds a `flock` -/
 def holdsGen : Pc → Option Nat
-  | .flocked _ g | .probing _ g | .stale g | .metaW g | .spawning g | .decided g _ | .failing g
+  | .flocked _ g | .probing _ g | .stale g | .metaW g | .spawning g | .waiting g _ | .decided g _ | .failing g
   | .gUnlinkSock g | .gUnlinkMeta g | .gUnlinkLock g | .gReleasing g => some g
   | _ => none
 
 /-- inside the critical section proper: the lock inode was verified and the process has not unlinked it -/
 def effective : Pc → Option Nat
-  | .probing _ g | .stale g | .metaW g | .spawning g | .decided g _ | .failing g
+  | .probing _ g | .stale g | .metaW g | .spawning g | .waiting g _ | .decided g _ | .failing g
   | .gUnlinkSock g | .gUnlinkMeta g | .gUnlinkLock g => some g
   | _ => none
 
-/-- between a failed probe and the spawn / the removal of the socket path -/
+/-- between a failed probe and the end of the spawn / the removal of the socket path -/
 def pastFailedProbe : Pc → Bool
-  | .stale _ | .metaW _ | .spawning _ | .gUnlinkSock _ => true
+  | .stale _ | .metaW _ | .spawning _ | .waiting _ _ | .gUnlinkSock _ => true
   | _ => false
+
+/-- the worker whose announcement the launcher is waiting for -/
+def waitsFor : Pc → Option Wid
+  | .waiting _ w => some w
+  | _ => none
 
 /-- the launch has decided to return the path (at `t0`) and has not returned yet -/
 def decidedAt : Pc → Option Nat
@@ -108,18 +118,35 @@ def decidedAt : Pc → Option Nat
   | .released (some t0) => some t0
   | _ => none
 
+/-- worker start-up, before the announcement -/
+def inStartup : WSt → Bool
+  | .starting | .prechecked | .cleared | .bound | .listening => true
+  | _ => false
+
 theorem effective_holds {p : Pc} {g : Nat} (h : effective p = some g) : holdsGen p = some g := by
   cases p <;> simp_all [effective, holdsGen]
 
 theorem pastFailedProbe_effective {p : Pc} (h : pastFailedProbe p = true) : ∃ g, effective p = some g := by
   cases p <;> simp_all [pastFailedProbe, effective]
 
+theorem waitsFor_eq {p : Pc} {w : Wid} (h : waitsFor p = some w) : ∃ g, p = .waiting g w := by
+  cases p <;> simp_all [waitsFor]
+
 structure Inv (idle : Nat) (s : St) : Prop where
   heldI : ∀ t g, holdsGen (s.pc t) = some g → s.held g = some t
   effI : ∀ t g, effective (s.pc t) = some g → g = s.lockGen
+  /-- an accepting worker is the one the path names -/
   accSock : s.clobbered = false → ∀ w, isAccepting (s.ws w) = true → s.sock = some w
-  noAcc : s.clobbered = false → ∀ t, pastFailedProbe (s.pc t) = true → ∀ w, isAccepting (s.ws w) = false
-  aliveI : ∀ w, w ∈ s.mon.alive ↔ isAccepting (s.ws w) = true
+  boundSock : s.clobbered = false → ∀ w, s.ws w = .bound → s.sock = some w
+  /-- between a failed probe and the end of the spawn the only worker that can be accepting is the one being spawned -/
+  noAcc : s.clobbered = false → ∀ t, pastFailedProbe (s.pc t) = true → ∀ w, isAccepting (s.ws w) = true →
+    waitsFor (s.pc t) = some w
+  /-- a worker that has not announced itself yet has its launcher waiting for it (lock held) -/
+  startI : ∀ w, inStartup (s.ws w) = true → ∃ t g, s.pc t = .waiting g w
+  /-- nobody announces before listening -/
+  noAnn : ∀ w, s.ws w ≠ .announced
+  aliveI : ∀ w, w ∈ s.mon.alive ↔ isAlive (s.ws w) = true
+  accI : ∀ w, w ∈ s.mon.acc ↔ isAccepting (s.ws w) = true
   pathI : s.mon.path = s.sock
   decI : s.clobbered = false → ∀ t t0, decidedAt (s.pc t) = some t0 →
     t0 ≤ s.now ∧ (s.now < t0 + idle → ∃ w q, s.sock = some w ∧ s.ws w = .accepting q ∧ t0 ≤ q)
@@ -127,6 +154,8 @@ structure Inv (idle : Nat) (s : St) : Prop where
   badSpawn : s.clobbered = false → s.mon.badSpawn = false
   badRet : s.clobbered = false → s.mon.badRet = false
   monHist : s.mon = Spec.LMon.run idle s.hist
+  /-- worker ids are handed out in order -/
+  freshI : ∀ w, s.nextW ≤ w → s.ws w = .unborn
 
 /-- **mutual exclusion** of the critical sections proper -/
 theorem Inv.mutex {idle : Nat} {s : St} (h : Inv idle s) {t t' : Tid} {g g' : Nat}
@@ -138,8 +167,18 @@ theorem Inv.mutex {idle : Nat} {s : St} (h : Inv idle s) {t t' : Tid} {g g' : Na
   rw [e1] at h1; rw [e2] at h2; rw [h1] at h2
   exact Option.some.inj h2
 
+/-- while some process is inside the critical section at a pc that is not `waiting`, no worker is starting up -/
+theorem Inv.noStartup {idle : Nat} {s : St} (h : Inv idle s) {t : Tid} {g : Nat}
+    (ht : effective (s.pc t) = some g) (hw : waitsFor (s.pc t) = none) (w : Wid) : inStartup (s.ws w) = false := by
+  cases hs : inStartup (s.ws w) with
+  | false => rfl
+  | true =>
+    obtain ⟨t', g', hp⟩ := h.startI w hs
+    have : t = t' := h.mutex ht (by rw [hp]; rfl)
+    subst this; rw [hp] at hw; simp [waitsFor] at hw
+
 theorem inv_init (idle : Nat) : Inv idle ({} : St) := by
-  constructor <;> simp [holdsGen, effective, pastFailedProbe, decidedAt, isAccepting, Spec.LMon.run]
+  constructor <;> simp [holdsGen, effective, pastFailedProbe, decidedAt, isAccepting, isAlive, inStartup, Spec.LMon.run]
 
 /-! ### preservation -/
 
@@ -147,8 +186,8 @@ section steps
 variable {idle : Nat} {s : St}
 
 theorem inv_tick (h : Inv idle s) (d : Nat) : Inv idle { s with now := s.now + d } := by
-  obtain ⟨heldI, effI, accSock, noAcc, aliveI, pathI, decI, quietI, badSpawn, badRet, monHist⟩ := h
-  refine ⟨heldI, effI, accSock, noAcc, aliveI, pathI, ?_, ?_, badSpawn, badRet, monHist⟩
+  obtain ⟨heldI, effI, accSock, boundSock, noAcc, startI, noAnn, aliveI, accI, pathI, decI, quietI, badSpawn, badRet, monHist, freshI⟩ := h
+  refine ⟨heldI, effI, accSock, boundSock, noAcc, startI, noAnn, aliveI, accI, pathI, ?_, ?_, badSpawn, badRet, monHist, freshI⟩
   · intro hc t t0 ht
     obtain ⟨h1, h2⟩ := decI hc t t0 ht
     refine ⟨by show t0 ≤ s.now + d; omega, fun hlt => h2 ?_⟩
@@ -158,114 +197,147 @@ theorem inv_tick (h : Inv idle s) (d : Nat) : Inv idle { s with now := s.now + d
     have := quietI w q hw
     show q ≤ s.now + d; omega
 
-/-- steps that only move one process between program counters (and possibly touch the meta file): the new pc holds
-the same flock, is effective / past a failed probe / decided only if the old one was -/
+/-- the pc-dependent fields after one process moved from a pc that waits for nobody to `p'` -/
+theorem pcFields (h : Inv idle s) (t : Tid) (p' : Pc)
+    (hh : ∀ g, holdsGen p' = some g → s.held g = some t)
+    (he : ∀ g, effective p' = some g → g = s.lockGen)
+    (hp : pastFailedProbe p' = true → s.clobbered = false → ∀ w, isAccepting (s.ws w) = true → waitsFor p' = some w)
+    (hs : ∀ w, inStartup (s.ws w) = true → ∀ g, s.pc t = .waiting g w → p' = .waiting g w)
+    (hd : s.clobbered = false → ∀ t0, decidedAt p' = some t0 →
+      t0 ≤ s.now ∧ (s.now < t0 + idle → ∃ w q, s.sock = some w ∧ s.ws w = .accepting q ∧ t0 ≤ q)) :
+    (∀ t' g, holdsGen (upd s.pc t p' t') = some g → s.held g = some t') ∧
+    (∀ t' g, effective (upd s.pc t p' t') = some g → g = s.lockGen) ∧
+    (s.clobbered = false → ∀ t', pastFailedProbe (upd s.pc t p' t') = true → ∀ w, isAccepting (s.ws w) = true →
+      waitsFor (upd s.pc t p' t') = some w) ∧
+    (∀ w, inStartup (s.ws w) = true → ∃ t' g, upd s.pc t p' t' = .waiting g w) ∧
+    (s.clobbered = false → ∀ t' t0, decidedAt (upd s.pc t p' t') = some t0 →
+      t0 ≤ s.now ∧ (s.now < t0 + idle → ∃ w q, s.sock = some w ∧ s.ws w = .accepting q ∧ t0 ≤ q)) := by
+  refine ⟨?_, ?_, ?_, ?_, ?_⟩
+  · intro t' g hg
+    by_cases ht : t' = t
+    · subst ht; simp only [upd, if_true] at hg; exact hh g hg
+    · simp only [upd, ht, if_false] at hg; exact h.heldI t' g hg
+  · intro t' g hg
+    by_cases ht : t' = t
+    · subst ht; simp only [upd, if_true] at hg; exact he g hg
+    · simp only [upd, ht, if_false] at hg; exact h.effI t' g hg
+  · intro hc t' hg w hw
+    by_cases ht : t' = t
+    · subst ht; simp only [upd, if_true] at hg ⊢; exact hp hg hc w hw
+    · simp only [upd, ht, if_false] at hg ⊢; exact h.noAcc hc t' hg w hw
+  · intro w hw
+    obtain ⟨t', g, hpc⟩ := h.startI w hw
+    by_cases ht : t' = t
+    · subst ht; exact ⟨t', g, by simp only [upd, if_true]; exact hs w hw g hpc⟩
+    · exact ⟨t', g, by simp only [upd, ht, if_false]; exact hpc⟩
+  · intro hc t' t0 hg
+    by_cases ht : t' = t
+    · subst ht; simp only [upd, if_true] at hg; exact hd hc t0 hg
+    · simp only [upd, ht, if_false] at hg; exact h.decI hc t' t0 hg
+
+/-- steps that only move one process between program counters that wait for no worker (and possibly touch the meta
+file): the new pc holds the same flock, is effective / past a failed probe / decided only if the old one was -/
 theorem inv_pc (h : Inv idle s) (t : Tid) (p' : Pc) (m : Bool)
     (hh : ∀ g, holdsGen p' = some g → holdsGen (s.pc t) = some g)
     (he : ∀ g, effective p' = some g → effective (s.pc t) = some g)
     (hp : pastFailedProbe p' = true → pastFailedProbe (s.pc t) = true)
+    (hw : waitsFor (s.pc t) = none)
     (hd : ∀ t0, decidedAt p' = some t0 → decidedAt (s.pc t) = some t0) :
     Inv idle { s with pc := upd s.pc t p', hasMeta := m } := by
-  obtain ⟨heldI, effI, accSock, noAcc, aliveI, pathI, decI, quietI, badSpawn, badRet, monHist⟩ := h
-  refine ⟨?_, ?_, accSock, ?_, aliveI, pathI, ?_, quietI, badSpawn, badRet, monHist⟩
-  · intro t' g hg
+  obtain ⟨f1, f2, f3, f4, f5⟩ := pcFields h t p'
+    (fun g hg => h.heldI t g (hh g hg)) (fun g hg => h.effI t g (he g hg))
+    (fun hg hc w hacc => by have := h.noAcc hc t (hp hg) w hacc; rw [hw] at this; cases this)
+    (fun w _ g hpc => by rw [hpc] at hw; simp [waitsFor] at hw)
+    (fun hc t0 hg => h.decI hc t t0 (hd t0 hg))
+  exact ⟨f1, f2, h.accSock, h.boundSock, f3, f4, h.noAnn, h.aliveI, h.accI, h.pathI, f5, h.quietI, h.badSpawn, h.badRet, h.monHist, h.freshI⟩
+
+/-- the world-level pc-dependent fields when one process moves between pcs that are neither past a failed probe, nor
+waiting, nor decided -/
+theorem pcWorld (h : Inv idle s) (t : Tid) (p' : Pc) (hp : pastFailedProbe p' = false) (hw : waitsFor (s.pc t) = none)
+    (hd : decidedAt p' = none) :
+    (s.clobbered = false → ∀ t', pastFailedProbe (upd s.pc t p' t') = true → ∀ w, isAccepting (s.ws w) = true →
+      waitsFor (upd s.pc t p' t') = some w) ∧
+    (∀ w, inStartup (s.ws w) = true → ∃ t' g, upd s.pc t p' t' = .waiting g w) ∧
+    (s.clobbered = false → ∀ t' t0, decidedAt (upd s.pc t p' t') = some t0 →
+      t0 ≤ s.now ∧ (s.now < t0 + idle → ∃ w q, s.sock = some w ∧ s.ws w = .accepting q ∧ t0 ≤ q)) := by
+  refine ⟨?_, ?_, ?_⟩
+  · intro hc t' hg w hacc
     by_cases ht : t' = t
-    · subst ht; simp only [upd, if_true] at hg; exact heldI _ g (hh g hg)
-    · simp only [upd, ht, if_false] at hg; exact heldI t' g hg
-  · intro t' g hg
+    · subst ht; simp only [upd, if_true] at hg; rw [hp] at hg; cases hg
+    · simp only [upd, ht, if_false] at hg ⊢; exact h.noAcc hc t' hg w hacc
+  · intro w hs
+    obtain ⟨t', g, hpc⟩ := h.startI w hs
     by_cases ht : t' = t
-    · subst ht; simp only [upd, if_true] at hg; exact effI _ g (he g hg)
-    · simp only [upd, ht, if_false] at hg; exact effI t' g hg
-  · intro hc t' hg
-    by_cases ht : t' = t
-    · subst ht; simp only [upd, if_true] at hg; exact noAcc hc _ (hp hg)
-    · simp only [upd, ht, if_false] at hg; exact noAcc hc t' hg
+    · subst ht; rw [hpc] at hw; simp [waitsFor] at hw
+    · exact ⟨t', g, by simp only [upd, ht, if_false]; exact hpc⟩
   · intro hc t' t0 hg
     by_cases ht : t' = t
-    · subst ht; simp only [upd, if_true] at hg; exact decI hc _ t0 (hd t0 hg)
-    · simp only [upd, ht, if_false] at hg; exact decI hc t' t0 hg
+    · subst ht; simp only [upd, if_true] at hg; rw [hd] at hg; cases hg
+    · simp only [upd, ht, if_false] at hg; exact h.decI hc t' t0 hg
 
 theorem inv_flock (h : Inv idle s) (t : Tid) (r : Role) (g : Nat) (hpc : s.pc t = .opened r g) (hfree : s.held g = none) :
     Inv idle { s with held := upd s.held g (some t), pc := upd s.pc t (.flocked r g) } := by
-  obtain ⟨heldI, effI, accSock, noAcc, aliveI, pathI, decI, quietI, badSpawn, badRet, monHist⟩ := h
-  refine ⟨?_, ?_, accSock, ?_, aliveI, pathI, ?_, quietI, badSpawn, badRet, monHist⟩
+  obtain ⟨f3, f4, f5⟩ := pcWorld h t (.flocked r g) rfl (by rw [hpc]; rfl) rfl
+  refine ⟨?_, ?_, h.accSock, h.boundSock, f3, f4, h.noAnn, h.aliveI, h.accI, h.pathI, f5, h.quietI, h.badSpawn, h.badRet, h.monHist, h.freshI⟩
   · intro t' g' hg
     by_cases ht : t' = t
     · subst ht; simp only [upd, if_true, holdsGen, Option.some.injEq] at hg; subst hg; simp [upd]
     · simp only [upd, ht, if_false] at hg
-      have h1 := heldI t' g' hg
+      have h1 := h.heldI t' g' hg
       have : g' ≠ g := by intro e; subst e; rw [hfree] at h1; cases h1
       simp only [upd, this, if_false]; exact h1
   · intro t' g' hg
     by_cases ht : t' = t
     · subst ht; simp [upd, effective] at hg
-    · simp only [upd, ht, if_false] at hg; exact effI t' g' hg
-  · intro hc t' hg
-    by_cases ht : t' = t
-    · subst ht; simp [upd, pastFailedProbe] at hg
-    · simp only [upd, ht, if_false] at hg; exact noAcc hc t' hg
-  · intro hc t' t0 hg
-    by_cases ht : t' = t
-    · subst ht; simp [upd, decidedAt] at hg
-    · simp only [upd, ht, if_false] at hg; exact decI hc t' t0 hg
+    · simp only [upd, ht, if_false] at hg; exact h.effI t' g' hg
 
 /-- giving the flock up (failed inode check, `release()`): the new pc holds nothing -/
 theorem inv_unlock (h : Inv idle s) (t : Tid) (g : Nat) (p' : Pc) (hg : holdsGen (s.pc t) = some g)
     (hh : holdsGen p' = none) (he : effective p' = none) (hp : pastFailedProbe p' = false)
+    (hw : waitsFor (s.pc t) = none)
     (hd : ∀ t0, decidedAt p' = some t0 → decidedAt (s.pc t) = some t0) :
     Inv idle { s with held := upd s.held g none, pc := upd s.pc t p' } := by
-  obtain ⟨heldI, effI, accSock, noAcc, aliveI, pathI, decI, quietI, badSpawn, badRet, monHist⟩ := h
-  have hmine := heldI t g hg
-  refine ⟨?_, ?_, accSock, ?_, aliveI, pathI, ?_, quietI, badSpawn, badRet, monHist⟩
+  have hmine := h.heldI t g hg
+  obtain ⟨_, _, f3, f4, f5⟩ := pcFields h t p' (fun g' hg' => by rw [hh] at hg'; cases hg')
+    (fun g' hg' => by rw [he] at hg'; cases hg') (fun hg' => by rw [hp] at hg'; cases hg')
+    (fun w _ g' hpc => by rw [hpc] at hw; simp [waitsFor] at hw)
+    (fun hc t0 hg' => h.decI hc t t0 (hd t0 hg'))
+  refine ⟨?_, ?_, h.accSock, h.boundSock, f3, f4, h.noAnn, h.aliveI, h.accI, h.pathI, f5, h.quietI, h.badSpawn, h.badRet, h.monHist, h.freshI⟩
   · intro t' g' hg'
     by_cases ht : t' = t
     · subst ht; simp only [upd, if_true] at hg'; rw [hh] at hg'; cases hg'
     · simp only [upd, ht, if_false] at hg'
-      have h1 := heldI t' g' hg'
+      have h1 := h.heldI t' g' hg'
       have : g' ≠ g := by intro e; subst e; rw [hmine] at h1; exact ht (Option.some.inj h1).symm
       simp only [upd, this, if_false]; exact h1
   · intro t' g' hg'
     by_cases ht : t' = t
     · subst ht; simp only [upd, if_true] at hg'; rw [he] at hg'; cases hg'
-    · simp only [upd, ht, if_false] at hg'; exact effI t' g' hg'
-  · intro hc t' hg'
-    by_cases ht : t' = t
-    · subst ht; simp only [upd, if_true] at hg'; rw [hp] at hg'; cases hg'
-    · simp only [upd, ht, if_false] at hg'; exact noAcc hc t' hg'
-  · intro hc t' t0 hg'
-    by_cases ht : t' = t
-    · subst ht; simp only [upd, if_true] at hg'; exact decI hc _ t0 (hd t0 hg')
-    · simp only [upd, ht, if_false] at hg'; exact decI hc t' t0 hg'
+    · simp only [upd, ht, if_false] at hg'; exact h.effI t' g' hg'
 
 /-- the inode check succeeded: the process enters the critical section proper -/
 theorem inv_verify (h : Inv idle s) (t : Tid) (r : Role) (g : Nat) (hpc : s.pc t = .flocked r g) (hg : g = s.lockGen) :
     Inv idle { s with pc := upd s.pc t (.probing r g) } := by
-  obtain ⟨heldI, effI, accSock, noAcc, aliveI, pathI, decI, quietI, badSpawn, badRet, monHist⟩ := h
-  refine ⟨?_, ?_, accSock, ?_, aliveI, pathI, ?_, quietI, badSpawn, badRet, monHist⟩
-  · intro t' g' hg'
-    by_cases ht : t' = t
-    · subst ht; simp only [upd, if_true, holdsGen, Option.some.injEq] at hg'; subst hg'
-      exact heldI _ _ (by rw [hpc]; rfl)
-    · simp only [upd, ht, if_false] at hg'; exact heldI t' g' hg'
-  · intro t' g' hg'
-    by_cases ht : t' = t
-    · subst ht; simp only [upd, if_true, effective, Option.some.injEq] at hg'; subst hg'; exact hg
-    · simp only [upd, ht, if_false] at hg'; exact effI t' g' hg'
-  · intro hc t' hg'
-    by_cases ht : t' = t
-    · subst ht; simp [upd, pastFailedProbe] at hg'
-    · simp only [upd, ht, if_false] at hg'; exact noAcc hc t' hg'
-  · intro hc t' t0 hg'
-    by_cases ht : t' = t
-    · subst ht; simp [upd, decidedAt] at hg'
-    · simp only [upd, ht, if_false] at hg'; exact decI hc t' t0 hg'
+  obtain ⟨f1, f2, f3, f4, f5⟩ := pcFields h t (.probing r g)
+    (fun g' hg' => by simp only [holdsGen, Option.some.injEq] at hg'; subst hg'; exact h.heldI t _ (by rw [hpc]; rfl))
+    (fun g' hg' => by simp only [effective, Option.some.injEq] at hg'; subst hg'; exact hg)
+    (fun hg' => by cases hg') (fun w _ g' hpc' => by rw [hpc] at hpc'; cases hpc')
+    (fun _ t0 hg' => by cases hg')
+  exact ⟨f1, f2, h.accSock, h.boundSock, f3, f4, h.noAnn, h.aliveI, h.accI, h.pathI, f5, h.quietI, h.badSpawn, h.badRet, h.monHist, h.freshI⟩
 
-theorem pathAccepting_iff : pathAccepting s = true ↔ ∃ w q, s.sock = some w ∧ s.ws w = .accepting q := by
+theorem pathAccepting_iff : pathAccepting s = true ↔ ∃ w, s.sock = some w ∧ isAccepting (s.ws w) = true := by
   unfold pathAccepting
   cases hs : s.sock with
   | none => simp
-  | some w =>
-    cases hw : s.ws w <;> simp [isAccepting, hw]
+  | some w => simp
+
+theorem touch_same_kind (w : Wid) :
+    isAccepting ((touch s).ws w) = isAccepting (s.ws w) ∧ isAlive ((touch s).ws w) = isAlive (s.ws w) ∧
+    inStartup ((touch s).ws w) = inStartup (s.ws w) ∧ ((touch s).ws w = .bound ↔ s.ws w = .bound) ∧
+    ((touch s).ws w = .announced ↔ s.ws w = .announced) := by
+  rcases touch_ws s w with h | ⟨_, ⟨q, hq⟩, h⟩
+  · rw [h]; simp
+  · rw [h, hq]; simp [isAccepting, isAlive, inStartup]
 
 /-- a successful probe (a connection to the worker the path names); `p'` is `decided g now` for a launcher and
 `gReleasing g` for the GC -/
@@ -274,38 +346,52 @@ theorem inv_probeOk (h : Inv idle s) (t : Tid) (r : Role) (g : Nat) (hpc : s.pc 
     (he : ∀ g', effective p' = some g' → g' = g) (hp : pastFailedProbe p' = false)
     (hd : ∀ t0, decidedAt p' = some t0 → t0 = s.now) :
     Inv idle { touch s with pc := upd s.pc t p' } := by
-  obtain ⟨heldI, effI, accSock, noAcc, aliveI, pathI, decI, quietI, badSpawn, badRet, monHist⟩ := h
-  obtain ⟨w0, q0, hs0, hw0⟩ := pathAccepting_iff.1 hacc
+  obtain ⟨w0, hs0, hw0⟩ := pathAccepting_iff.1 hacc
+  have hk := touch_same_kind (s := s)
+  -- the worker the path names is past its start-up: nobody waits for it while `t` is inside at a non-waiting pc
+  have hnotstart : inStartup (s.ws w0) = false := h.noStartup (t := t) (g := g) (by rw [hpc]; rfl) (by rw [hpc]; rfl) w0
+  obtain ⟨q0, hq0⟩ : ∃ q, s.ws w0 = .accepting q := by
+    cases hw : s.ws w0 <;> simp_all [isAccepting, inStartup]
   have htw0 : (touch s).ws w0 = .accepting s.now := by
-    rcases touch_ws s w0 with h1 | ⟨_, _, h1⟩
-    · unfold touch at h1 ⊢; simp [hs0, hw0, upd]
-    · exact h1
+    unfold touch; simp [hs0, hq0, upd]
   constructor
   · intro t' g' hg'
     simp only [touch_held]
     by_cases ht : t' = t
     · subst ht; simp only [upd, if_true] at hg'; rw [hh] at hg'; cases hg'
-      exact heldI _ _ (by rw [hpc]; rfl)
-    · simp only [upd, ht, if_false] at hg'; exact heldI t' g' hg'
+      exact h.heldI _ _ (by rw [hpc]; rfl)
+    · simp only [upd, ht, if_false] at hg'; exact h.heldI t' g' hg'
   · intro t' g' hg'
     simp only [touch_lockGen]
     by_cases ht : t' = t
     · subst ht; simp only [upd, if_true] at hg'
-      rw [he g' hg']; exact effI _ g (by rw [hpc]; rfl)
-    · simp only [upd, ht, if_false] at hg'; exact effI t' g' hg'
+      rw [he g' hg']; exact h.effI _ g (by rw [hpc]; rfl)
+    · simp only [upd, ht, if_false] at hg'; exact h.effI t' g' hg'
   · intro hc w hw
     simp only [touch_clobbered] at hc
     simp only [touch_sock]
-    rw [touch_isAccepting] at hw
-    exact accSock hc w hw
-  · intro hc t' hg' w
+    rw [(hk w).1] at hw
+    exact h.accSock hc w hw
+  · intro hc w hw
     simp only [touch_clobbered] at hc
-    rw [touch_isAccepting]
+    simp only [touch_sock]
+    exact h.boundSock hc w ((hk w).2.2.2.1.1 hw)
+  · intro hc t' hg' w hw
+    simp only [touch_clobbered] at hc
+    rw [(hk w).1] at hw
     by_cases ht : t' = t
     · subst ht; simp only [upd, if_true] at hg'; rw [hp] at hg'; cases hg'
-    · simp only [upd, ht, if_false] at hg'; exact noAcc hc t' hg' w
-  · intro w; simp only [touch_mon]; rw [touch_isAccepting]; exact aliveI w
-  · simpa using pathI
+    · simp only [upd, ht, if_false] at hg' ⊢; exact h.noAcc hc t' hg' w hw
+  · intro w hw
+    rw [(hk w).2.2.1] at hw
+    obtain ⟨t', g', hpc'⟩ := h.startI w hw
+    by_cases ht : t' = t
+    · subst ht; rw [hpc] at hpc'; cases hpc'
+    · exact ⟨t', g', by simp only [upd, ht, if_false]; exact hpc'⟩
+  · intro w hw; exact h.noAnn w ((hk w).2.2.2.2.1 hw)
+  · intro w; simp only [touch_mon]; rw [(hk w).2.1]; exact h.aliveI w
+  · intro w; simp only [touch_mon]; rw [(hk w).1]; exact h.accI w
+  · simpa using h.pathI
   · intro hc t' t0 hg'
     simp only [touch_clobbered] at hc
     simp only [touch_now, touch_sock]
@@ -314,7 +400,7 @@ theorem inv_probeOk (h : Inv idle s) (t : Tid) (r : Role) (g : Nat) (hpc : s.pc 
       have := hd t0 hg'; subst this
       exact ⟨Nat.le_refl _, fun _ => ⟨w0, s.now, hs0, htw0, Nat.le_refl _⟩⟩
     · simp only [upd, ht, if_false] at hg'
-      obtain ⟨h1, h2⟩ := decI hc t' t0 hg'
+      obtain ⟨h1, h2⟩ := h.decI hc t' t0 hg'
       refine ⟨h1, fun hlt => ?_⟩
       obtain ⟨w, q, hs1, hw1, hq1⟩ := h2 hlt
       have : w = w0 := by rw [hs0] at hs1; exact (Option.some.inj hs1).symm
@@ -323,72 +409,76 @@ theorem inv_probeOk (h : Inv idle s) (t : Tid) (r : Role) (g : Nat) (hpc : s.pc 
   · intro w q hw
     simp only [touch_now]
     rcases touch_ws s w with h1 | ⟨_, _, h1⟩
-    · rw [h1] at hw; exact quietI w q hw
+    · rw [h1] at hw; exact h.quietI w q hw
     · rw [h1] at hw; cases hw; exact Nat.le_refl _
-  · simpa using badSpawn
-  · simpa using badRet
-  · simpa using monHist
+  · simpa using h.badSpawn
+  · simpa using h.badRet
+  · simpa using h.monHist
+  · intro w hw
+    have h1 := h.freshI w (by simpa using hw)
+    rcases touch_ws s w with h2 | ⟨_, ⟨q, hq⟩, _⟩
+    · rw [h2]; exact h1
+    · rw [h1] at hq; cases hq
 
 /-- a failed probe: nobody is accepting (an accepting worker would be the one the path names) -/
 theorem inv_probeFail (h : Inv idle s) (t : Tid) (r : Role) (g : Nat) (hpc : s.pc t = .probing r g)
     (hacc : pathAccepting s = false) (p' : Pc) (hh : holdsGen p' = some g) (he : effective p' = some g)
     (hd : decidedAt p' = none) :
     Inv idle { s with pc := upd s.pc t p' } := by
-  obtain ⟨heldI, effI, accSock, noAcc, aliveI, pathI, decI, quietI, badSpawn, badRet, monHist⟩ := h
-  refine ⟨?_, ?_, accSock, ?_, aliveI, pathI, ?_, quietI, badSpawn, badRet, monHist⟩
-  · intro t' g' hg'
-    by_cases ht : t' = t
-    · subst ht; simp only [upd, if_true] at hg'; rw [hh] at hg'; cases hg'
-      exact heldI _ _ (by rw [hpc]; rfl)
-    · simp only [upd, ht, if_false] at hg'; exact heldI t' g' hg'
-  · intro t' g' hg'
-    by_cases ht : t' = t
-    · subst ht; simp only [upd, if_true] at hg'; rw [he] at hg'; cases hg'
-      exact effI _ g (by rw [hpc]; rfl)
-    · simp only [upd, ht, if_false] at hg'; exact effI t' g' hg'
-  · intro hc t' hg' w
-    by_cases ht : t' = t
-    · cases hw : isAccepting (s.ws w) with
-      | false => rfl
-      | true =>
-        have hs := accSock hc w hw
-        have : pathAccepting s = true := by unfold pathAccepting; rw [hs]; exact hw
-        rw [hacc] at this; cases this
-    · simp only [upd, ht, if_false] at hg'; exact noAcc hc t' hg' w
-  · intro hc t' t0 hg'
-    by_cases ht : t' = t
-    · subst ht; simp only [upd, if_true] at hg'; rw [hd] at hg'; cases hg'
-    · simp only [upd, ht, if_false] at hg'; exact decI hc t' t0 hg'
+  obtain ⟨f1, f2, f3, f4, f5⟩ := pcFields h t p'
+    (fun g' hg' => by rw [hh] at hg'; cases hg'; exact h.heldI t _ (by rw [hpc]; rfl))
+    (fun g' hg' => by rw [he] at hg'; cases hg'; exact h.effI t _ (by rw [hpc]; rfl))
+    (fun _ hc w hw => by
+      have hs := h.accSock hc w hw
+      have : pathAccepting s = true := pathAccepting_iff.2 ⟨w, hs, hw⟩
+      rw [hacc] at this; cases this)
+    (fun w _ g' hpc' => by rw [hpc] at hpc'; cases hpc')
+    (fun _ t0 hg' => by rw [hd] at hg'; cases hg')
+  exact ⟨f1, f2, h.accSock, h.boundSock, f3, f4, h.noAnn, h.aliveI, h.accI, h.pathI, f5, h.quietI, h.badSpawn, h.badRet, h.monHist, h.freshI⟩
 
 /-- removing the socket path after a failed probe (`_unlink_stale_socket`, the GC's `unlink(sock)`) -/
 theorem inv_rmSock (h : Inv idle s) (t : Tid) (p' : Pc) (hpast : pastFailedProbe (s.pc t) = true)
+    (hw : waitsFor (s.pc t) = none)
     (hh : ∀ g, holdsGen p' = some g → holdsGen (s.pc t) = some g)
     (he : ∀ g, effective p' = some g → effective (s.pc t) = some g)
     (hd : decidedAt p' = none) :
     Inv idle { rmSock idle s with pc := upd s.pc t p' } := by
-  obtain ⟨heldI, effI, accSock, noAcc, aliveI, pathI, decI, quietI, badSpawn, badRet, monHist⟩ := h
+  obtain ⟨g0, hg0⟩ := pastFailedProbe_effective hpast
+  have nostart := h.noStartup hg0 hw
+  have noacc : s.clobbered = false → ∀ w, isAccepting (s.ws w) = false := by
+    intro hc w
+    cases ha : isAccepting (s.ws w) with
+    | false => rfl
+    | true => have := h.noAcc hc t hpast w ha; rw [hw] at this; cases this
   constructor
   · intro t' g' hg'
     simp only [rmSock_held]
     by_cases ht : t' = t
-    · subst ht; simp only [upd, if_true] at hg'; exact heldI _ g' (hh g' hg')
-    · simp only [upd, ht, if_false] at hg'; exact heldI t' g' hg'
+    · subst ht; simp only [upd, if_true] at hg'; exact h.heldI _ g' (hh g' hg')
+    · simp only [upd, ht, if_false] at hg'; exact h.heldI t' g' hg'
   · intro t' g' hg'
     simp only [rmSock_lockGen]
     by_cases ht : t' = t
-    · subst ht; simp only [upd, if_true] at hg'; exact effI _ g' (he g' hg')
-    · simp only [upd, ht, if_false] at hg'; exact effI t' g' hg'
-  · intro hc w hw
+    · subst ht; simp only [upd, if_true] at hg'; exact h.effI _ g' (he g' hg')
+    · simp only [upd, ht, if_false] at hg'; exact h.effI t' g' hg'
+  · intro hc w hw1
     simp only [rmSock_clobbered] at hc
-    simp only [rmSock_ws] at hw
-    have := noAcc hc t hpast w
-    rw [this] at hw; cases hw
-  · intro hc t' _ w
+    simp only [rmSock_ws] at hw1
+    rw [noacc hc w] at hw1; cases hw1
+  · intro hc w hw1
+    simp only [rmSock_ws] at hw1
+    have := nostart w; rw [hw1] at this; cases this
+  · intro hc t' _ w hw1
     simp only [rmSock_clobbered] at hc
-    simp only [rmSock_ws]
-    exact noAcc hc t hpast w
-  · intro w; simp only [rmSock_alive, rmSock_ws]; exact aliveI w
-  · simp only [rmSock_sock]; exact rmSock_path idle s pathI
+    simp only [rmSock_ws] at hw1
+    rw [noacc hc w] at hw1; cases hw1
+  · intro w hw1
+    simp only [rmSock_ws] at hw1
+    have := nostart w; rw [hw1] at this; cases this
+  · intro w; simp only [rmSock_ws]; exact h.noAnn w
+  · intro w; simp only [rmSock_alive, rmSock_ws]; exact h.aliveI w
+  · intro w; simp only [rmSock_acc, rmSock_ws]; exact h.accI w
+  · simp only [rmSock_sock]; exact rmSock_path idle s h.pathI
   · intro hc t' t0 hg'
     simp only [rmSock_clobbered] at hc
     simp only [rmSock_now, rmSock_sock, rmSock_ws]
@@ -396,92 +486,148 @@ theorem inv_rmSock (h : Inv idle s) (t : Tid) (p' : Pc) (hpast : pastFailedProbe
       by_cases ht : t' = t
       · subst ht; simp only [upd, if_true] at hg'; rw [hd] at hg'; cases hg'
       · simpa only [upd, ht, if_false] using hg'
-    obtain ⟨h1, h2⟩ := decI hc t' t0 hold
+    obtain ⟨h1, h2⟩ := h.decI hc t' t0 hold
     refine ⟨h1, fun hlt => ?_⟩
     obtain ⟨w, q, _, hw1, _⟩ := h2 hlt
-    have := noAcc hc t hpast w
+    have := noacc hc w
     rw [hw1] at this; cases this
-  · intro w q hw; simp only [rmSock_ws] at hw; simp only [rmSock_now]; exact quietI w q hw
-  · intro hc; simp only [rmSock_clobbered] at hc; simp only [rmSock_badSpawn]; exact badSpawn hc
-  · intro hc; simp only [rmSock_clobbered] at hc; simp only [rmSock_badRet]; exact badRet hc
-  · exact rmSock_monHist idle s monHist
+  · intro w q hw1; simp only [rmSock_ws] at hw1; simp only [rmSock_now]; exact h.quietI w q hw1
+  · intro hc; simp only [rmSock_clobbered] at hc; simp only [rmSock_badSpawn]; exact h.badSpawn hc
+  · intro hc; simp only [rmSock_clobbered] at hc; simp only [rmSock_badRet]; exact h.badRet hc
+  · exact rmSock_monHist idle s h.monHist
+  · intro w hw; simp only [rmSock_ws]; exact h.freshI w (by simpa using hw)
 
+/-- `Popen`: the worker process exists; the launcher starts waiting for its announcement -/
 theorem inv_spawn (h : Inv idle s) (t : Tid) (g : Nat) (hpc : s.pc t = .spawning g) :
-    Inv idle (emit idle { s with ws := upd s.ws s.nextW (.accepting s.now), sock := some s.nextW, nextW := s.nextW + 1,
-                                 pc := upd s.pc t (.decided g s.now) } (.spawn s.nextW)) := by
-  have hmut := @Inv.mutex idle s h
-  obtain ⟨heldI, effI, accSock, noAcc, aliveI, pathI, decI, quietI, badSpawn, badRet, monHist⟩ := h
-  have hpast : pastFailedProbe (s.pc t) = true := by rw [hpc]; rfl
+    Inv idle (emit idle { s with ws := upd s.ws s.nextW .starting, nextW := s.nextW + 1,
+                                 pc := upd s.pc t (.waiting g s.nextW) } (.spawn s.nextW)) := by
   have heff : effective (s.pc t) = some g := by rw [hpc]; rfl
+  have hpast : pastFailedProbe (s.pc t) = true := by rw [hpc]; rfl
+  have hw : waitsFor (s.pc t) = none := by rw [hpc]; rfl
+  have nostart := h.noStartup heff hw
+  have noacc : s.clobbered = false → ∀ w, isAccepting (s.ws w) = false := by
+    intro hc w
+    cases ha : isAccepting (s.ws w) with
+    | false => rfl
+    | true => have := h.noAcc hc t hpast w ha; rw [hw] at this; cases this
+  have hacc' : ∀ w, isAccepting (upd s.ws s.nextW .starting w) = true → isAccepting (s.ws w) = true := by
+    intro w hw1
+    by_cases hwn : w = s.nextW
+    · subst hwn; simp [upd, isAccepting] at hw1
+    · simpa only [upd, hwn, if_false] using hw1
   constructor
   · intro t' g' hg'
     simp only [emit_pc, emit_held] at hg' ⊢
     by_cases ht : t' = t
     · subst ht; simp only [upd, if_true, holdsGen, Option.some.injEq] at hg'; subst hg'
-      exact heldI _ _ (by rw [hpc]; rfl)
-    · simp only [upd, ht, if_false] at hg'; exact heldI t' g' hg'
+      exact h.heldI _ _ (by rw [hpc]; rfl)
+    · simp only [upd, ht, if_false] at hg'; exact h.heldI t' g' hg'
   · intro t' g' hg'
     simp only [emit_pc, emit_lockGen] at hg' ⊢
     by_cases ht : t' = t
     · subst ht; simp only [upd, if_true, effective, Option.some.injEq] at hg'; subst hg'
-      exact effI _ _ heff
-    · simp only [upd, ht, if_false] at hg'; exact effI t' g' hg'
-  · intro hc w hw
+      exact h.effI _ _ heff
+    · simp only [upd, ht, if_false] at hg'; exact h.effI t' g' hg'
+  · intro hc w hw1
     simp only [emit_clobbered] at hc
-    simp only [emit_ws, emit_sock] at hw ⊢
+    simp only [emit_ws] at hw1
+    have := hacc' w hw1; rw [noacc hc w] at this; cases this
+  · intro hc w hw1
+    simp only [emit_ws] at hw1
     by_cases hwn : w = s.nextW
-    · rw [hwn]
-    · simp only [upd, hwn, if_false] at hw
-      have := noAcc hc t hpast w; rw [this] at hw; cases hw
-  · intro hc t' hg' w
-    simp only [emit_pc] at hg'
-    by_cases ht : t' = t
-    · subst ht; simp [upd, pastFailedProbe] at hg'
-    · simp only [upd, ht, if_false] at hg'
-      obtain ⟨g', hg''⟩ := pastFailedProbe_effective hg'
-      exact absurd (hmut hg'' heff) ht
+    · subst hwn; simp [upd] at hw1
+    · simp only [upd, hwn, if_false] at hw1
+      have := nostart w; rw [hw1] at this; cases this
+  · intro hc t' _ w hw1
+    simp only [emit_clobbered] at hc
+    simp only [emit_ws] at hw1
+    have := hacc' w hw1; rw [noacc hc w] at this; cases this
+  · intro w hw1
+    simp only [emit_ws, emit_pc] at hw1 ⊢
+    by_cases hwn : w = s.nextW
+    · subst hwn; exact ⟨t, g, by simp [upd]⟩
+    · simp only [upd, hwn, if_false] at hw1
+      have := nostart w; rw [hw1] at this; cases this
+  · intro w
+    simp only [emit_ws]
+    by_cases hwn : w = s.nextW
+    · subst hwn; simp [upd]
+    · simp only [upd, hwn, if_false]; exact h.noAnn w
   · intro w
     simp only [emit_mon, emit_ws, Spec.LMon.step, List.mem_cons]
     by_cases hwn : w = s.nextW
-    · subst hwn; simp [upd, isAccepting]
-    · simp only [upd, hwn, if_false, false_or]; exact aliveI w
-  · simp [Spec.LMon.step]
+    · subst hwn; simp [upd, isAlive]
+    · simp only [upd, hwn, if_false, false_or]; exact h.aliveI w
+  · intro w
+    simp only [emit_mon, emit_ws, Spec.LMon.step]
+    by_cases hwn : w = s.nextW
+    · subst hwn
+      have hu := h.freshI s.nextW (Nat.le_refl _)
+      have := h.accI s.nextW
+      rw [hu] at this
+      simpa [upd, isAccepting] using this
+    · simp only [upd, hwn, if_false]; exact h.accI w
+  · simpa [Spec.LMon.step] using h.pathI
   · intro hc t' t0 hg'
     simp only [emit_clobbered] at hc
     simp only [emit_pc, emit_now, emit_sock, emit_ws] at hg' ⊢
     by_cases ht : t' = t
-    · subst ht; simp only [upd, if_true, decidedAt, Option.some.injEq] at hg'; subst hg'
-      exact ⟨Nat.le_refl _, fun _ => ⟨s.nextW, s.now, rfl, by simp [upd], Nat.le_refl _⟩⟩
+    · subst ht; simp [upd, decidedAt] at hg'
     · simp only [upd, ht, if_false] at hg'
-      obtain ⟨h1, _⟩ := decI hc t' t0 hg'
-      exact ⟨h1, fun _ => ⟨s.nextW, s.now, rfl, by simp [upd], h1⟩⟩
-  · intro w q hw
-    simp only [emit_ws, emit_now] at hw ⊢
+      obtain ⟨h1, h2⟩ := h.decI hc t' t0 hg'
+      refine ⟨h1, fun hlt => ?_⟩
+      obtain ⟨w, q, _, hw1, _⟩ := h2 hlt
+      have := noacc hc w; rw [hw1] at this; cases this
+  · intro w q hw1
+    simp only [emit_ws, emit_now] at hw1 ⊢
     by_cases hwn : w = s.nextW
-    · subst hwn; simp only [upd, if_true, WSt.accepting.injEq] at hw; omega
-    · simp only [upd, hwn, if_false] at hw; exact quietI w q hw
+    · subst hwn; simp [upd] at hw1
+    · simp only [upd, hwn, if_false] at hw1; exact h.quietI w q hw1
   · intro hc
     simp only [emit_clobbered] at hc
     simp only [emit_mon, Spec.LMon.step, Bool.or_eq_false_iff]
-    refine ⟨badSpawn hc, ?_⟩
+    refine ⟨h.badSpawn hc, ?_⟩
     have : s.mon.alive = [] := by
       apply List.eq_nil_iff_forall_not_mem.2
-      intro w hw
-      have h1 := (aliveI w).1 hw
-      have h2 := noAcc hc t hpast w
-      rw [h2] at h1; cases h1
+      intro w hw1
+      have h1 := (h.aliveI w).1 hw1
+      have h2 := nostart w
+      have h3 := noacc hc w
+      have h4 := h.noAnn w
+      cases hws : s.ws w <;> simp_all [isAlive, inStartup, isAccepting]
     simp [this]
-  · intro hc; simp only [emit_clobbered] at hc; simpa [Spec.LMon.step] using badRet hc
-  · simp only [emit_mon, emit_hist, lrun_snoc]; rw [← monHist]
+  · intro hc; simp only [emit_clobbered] at hc; simpa [Spec.LMon.step] using h.badRet hc
+  · simp only [emit_mon, emit_hist, lrun_snoc]; rw [← h.monHist]
+  · intro w hw
+    have hw' : s.nextW + 1 ≤ w := hw
+    show upd s.ws s.nextW .starting w = .unborn
+    have : w ≠ s.nextW := by omega
+    simp only [upd, this, if_false]; exact h.freshI w (by omega)
+
+/-- `_spawn_worker` returns (the worker has announced itself, after it started listening) or raises (the worker is gone) -/
+theorem inv_leaveWait (h : Inv idle s) (t : Tid) (g : Nat) (w : Wid) (hpc : s.pc t = .waiting g w) (p' : Pc)
+    (hnot : inStartup (s.ws w) = false)
+    (hh : holdsGen p' = some g) (he : effective p' = some g) (hp : pastFailedProbe p' = false)
+    (hd : ∀ t0, decidedAt p' = some t0 → s.ws w = .accepting t0) :
+    Inv idle { s with pc := upd s.pc t p' } := by
+  obtain ⟨f1, f2, f3, f4, f5⟩ := pcFields h t p'
+    (fun g' hg' => by rw [hh] at hg'; cases hg'; exact h.heldI t _ (by rw [hpc]; rfl))
+    (fun g' hg' => by rw [he] at hg'; cases hg'; exact h.effI t _ (by rw [hpc]; rfl))
+    (fun hg' => by rw [hp] at hg'; cases hg')
+    (fun w' hs g' hpc' => by rw [hpc] at hpc'; cases hpc'; rw [hs] at hnot; cases hnot)
+    (fun hc t0 hg' => by
+      have hw := hd t0 hg'
+      exact ⟨h.quietI w t0 hw, fun _ => ⟨w, t0, h.accSock hc w (by rw [hw]; rfl), hw, Nat.le_refl _⟩⟩)
+  exact ⟨f1, f2, h.accSock, h.boundSock, f3, f4, h.noAnn, h.aliveI, h.accI, h.pathI, f5, h.quietI, h.badSpawn, h.badRet, h.monHist, h.freshI⟩
 
 theorem inv_ret (h : Inv idle s) (t : Tid) (t0 : Nat) (hpc : s.pc t = .released (some t0)) :
     Inv idle (emit idle { s with pc := upd s.pc t .returned } (.ret t0 s.now)) := by
   have h1 := inv_pc h t .returned s.hasMeta (by intro g hg; cases hg) (by intro g hg; cases hg)
-    (by intro hg; cases hg) (by intro t1 hg; cases hg)
-  obtain ⟨_, _, _, _, aliveI0, pathI0, decI0, _, _, _, _⟩ := h
-  obtain ⟨heldI, effI, accSock, noAcc, aliveI, pathI, decI, quietI, badSpawn, badRet, monHist⟩ := h1
-  refine ⟨heldI, effI, accSock, noAcc, ?_, ?_, decI, quietI, ?_, ?_, ?_⟩
+    (by intro hg; cases hg) (by rw [hpc]; rfl) (by intro t1 hg; cases hg)
+  obtain ⟨heldI, effI, accSock, boundSock, noAcc, startI, noAnn, aliveI, accI, pathI, decI, quietI, badSpawn, badRet, monHist, freshI⟩ := h1
+  refine ⟨heldI, effI, accSock, boundSock, noAcc, startI, noAnn, ?_, ?_, ?_, decI, quietI, ?_, ?_, ?_, freshI⟩
   · intro w; simpa [Spec.LMon.step] using aliveI w
+  · intro w; simpa [Spec.LMon.step] using accI w
   · simpa [Spec.LMon.step] using pathI
   · intro hc; simpa [Spec.LMon.step] using badSpawn hc
   · intro hc
@@ -490,10 +636,10 @@ theorem inv_ret (h : Inv idle s) (t : Tid) (t0 : Nat) (hpc : s.pc t = .released 
     refine ⟨badRet hc, ?_⟩
     by_cases hlt : s.now < t0 + idle
     · right
-      obtain ⟨_, h2⟩ := decI0 hc t t0 (by rw [hpc]; rfl)
+      obtain ⟨_, h2⟩ := h.decI hc t t0 (by rw [hpc]; rfl)
       obtain ⟨w, q, hs, hw, _⟩ := h2 hlt
-      have hal : w ∈ s.mon.alive := (aliveI0 w).2 (by rw [hw]; rfl)
-      simp [Spec.LMon.pathAccepting, pathI0, hs, hal]
+      have hal : w ∈ s.mon.acc := (h.accI w).2 (by rw [hw]; rfl)
+      simp [Spec.LMon.pathAccepting, h.pathI, hs, hal]
     · left; simpa using hlt
   · simp only [emit_mon, emit_hist, lrun_snoc]; rw [← monHist]
 
@@ -501,50 +647,119 @@ theorem inv_ret (h : Inv idle s) (t : Tid) (t0 : Nat) (hpc : s.pc t = .released 
 nothing left to do but release -/
 theorem inv_gcUnlinkLock (h : Inv idle s) (t : Tid) (g : Nat) (hpc : s.pc t = .gUnlinkLock g) :
     Inv idle { s with lockGen := s.lockGen + 1, pc := upd s.pc t (.gReleasing g) } := by
-  have hmut := @Inv.mutex idle s h
-  obtain ⟨heldI, effI, accSock, noAcc, aliveI, pathI, decI, quietI, badSpawn, badRet, monHist⟩ := h
   have heff : effective (s.pc t) = some g := by rw [hpc]; rfl
-  refine ⟨?_, ?_, accSock, ?_, aliveI, pathI, ?_, quietI, badSpawn, badRet, monHist⟩
+  obtain ⟨f3, f4, f5⟩ := pcWorld h t (.gReleasing g) rfl (by rw [hpc]; rfl) rfl
+  refine ⟨?_, ?_, h.accSock, h.boundSock, f3, f4, h.noAnn, h.aliveI, h.accI, h.pathI, f5, h.quietI, h.badSpawn, h.badRet, h.monHist, h.freshI⟩
   · intro t' g' hg'
     by_cases ht : t' = t
     · subst ht; simp only [upd, if_true, holdsGen, Option.some.injEq] at hg'; subst hg'
-      exact heldI _ _ (by rw [hpc]; rfl)
-    · simp only [upd, ht, if_false] at hg'; exact heldI t' g' hg'
+      exact h.heldI _ _ (by rw [hpc]; rfl)
+    · simp only [upd, ht, if_false] at hg'; exact h.heldI t' g' hg'
   · intro t' g' hg'
     by_cases ht : t' = t
     · subst ht; simp [upd, effective] at hg'
-    · simp only [upd, ht, if_false] at hg'; exact absurd (hmut hg' heff) ht
-  · intro hc t' hg'
-    by_cases ht : t' = t
-    · subst ht; simp [upd, pastFailedProbe] at hg'
-    · simp only [upd, ht, if_false] at hg'; exact noAcc hc t' hg'
-  · intro hc t' t0 hg'
-    by_cases ht : t' = t
-    · subst ht; simp [upd, decidedAt] at hg'
-    · simp only [upd, ht, if_false] at hg'; exact decI hc t' t0 hg'
+    · simp only [upd, ht, if_false] at hg'; exact absurd (h.mutex hg' heff) ht
 
-/-- a worker stops accepting: only `idle` after its last connection -/
-theorem inv_wExit (h : Inv idle s) (w : Wid) (q : Nat) (hw : s.ws w = .accepting q) (hq : q + idle ≤ s.now) :
-    Inv idle (emit idle { s with ws := upd s.ws w .closed } (.exit w)) := by
-  obtain ⟨heldI, effI, accSock, noAcc, aliveI, pathI, decI, quietI, badSpawn, badRet, monHist⟩ := h
+/-! #### worker steps -/
+
+/-- a worker changes state without changing what it is to the rest of the world (accepting or not, alive or not, bound
+or not); start-up may only progress (`inStartup` is kept or left, never entered) -/
+theorem inv_wMove (h : Inv idle s) (w : Wid) (st' : WSt)
+    (hacc : isAccepting st' = isAccepting (s.ws w)) (halive : isAlive st' = isAlive (s.ws w))
+    (hstart : inStartup st' = true → inStartup (s.ws w) = true)
+    (hbound : st' = .bound → s.ws w = .bound) (hann : st' ≠ .announced) (hlive : s.ws w ≠ .unborn)
+    (hq : ∀ q, st' = .accepting q → q ≤ s.now ∧ ∀ q0, s.ws w = .accepting q0 → q0 ≤ q) (hnotacc : ∀ q0, s.ws w = .accepting q0 → ∃ q, st' = .accepting q) :
+    Inv idle { s with ws := upd s.ws w st' } := by
+  obtain ⟨heldI, effI, accSock, boundSock, noAcc, startI, noAnn, aliveI, accI, pathI, decI, quietI, badSpawn, badRet, monHist, freshI⟩ := h
+  have hA : ∀ w', isAccepting (upd s.ws w st' w') = isAccepting (s.ws w') := by
+    intro w'; by_cases he : w' = w
+    · subst he; simp [upd, hacc]
+    · simp [upd, he]
+  refine ⟨heldI, effI, ?_, ?_, ?_, ?_, ?_, ?_, ?_, pathI, ?_, ?_, badSpawn, badRet, monHist, ?_⟩
+  · intro hc w' hw'; rw [hA] at hw'; exact accSock hc w' hw'
+  · intro hc w' hw'
+    by_cases he : w' = w
+    · subst he; simp only [upd, if_true] at hw'; exact boundSock hc _ (hbound hw')
+    · simp only [upd, he, if_false] at hw'; exact boundSock hc w' hw'
+  · intro hc t hg w' hw'; rw [hA] at hw'; exact noAcc hc t hg w' hw'
+  · intro w' hw'
+    by_cases he : w' = w
+    · subst he; simp only [upd, if_true] at hw'; exact startI _ (hstart hw')
+    · simp only [upd, he, if_false] at hw'; exact startI w' hw'
+  · intro w'
+    by_cases he : w' = w
+    · subst he; simp only [upd, if_true]; exact hann
+    · simp only [upd, he, if_false]; exact noAnn w'
+  · intro w'
+    by_cases he : w' = w
+    · subst he; simp only [upd, if_true]; rw [halive]; exact aliveI _
+    · simp only [upd, he, if_false]; exact aliveI w'
+  · intro w'; rw [hA]; exact accI w'
+  · intro hc t t0 hg
+    obtain ⟨h1, h2⟩ := decI hc t t0 hg
+    refine ⟨h1, fun hlt => ?_⟩
+    obtain ⟨w', q', hs1, hw1, hq1⟩ := h2 hlt
+    by_cases he : w' = w
+    · subst he
+      obtain ⟨q, hq'⟩ := hnotacc q' hw1
+      exact ⟨w', q, hs1, by simp [upd, hq'], Nat.le_trans hq1 ((hq q hq').2 q' hw1)⟩
+    · exact ⟨w', q', hs1, by simp only [upd, he, if_false]; exact hw1, hq1⟩
+  · intro w' q' hw'
+    by_cases he : w' = w
+    · subst he; simp only [upd, if_true] at hw'; exact (hq q' hw').1
+    · simp only [upd, he, if_false] at hw'; exact quietI w' q' hw'
+  · intro w' hw'
+    by_cases he : w' = w
+    · subst he; exact absurd (freshI _ hw') hlive
+    · simp only [upd, he, if_false]; exact freshI w' hw'
+
+/-- a worker stops being alive: idle exit of an accepting worker (`q + idle ≤ now`), or death during start-up before it
+bound anything -/
+theorem inv_wGone (h : Inv idle s) (w : Wid) (st' : WSt) (hst : isAlive st' = false)
+    (hold : (∃ q, s.ws w = .accepting q ∧ q + idle ≤ s.now) ∨ s.ws w = .starting) :
+    Inv idle (emit idle { s with ws := upd s.ws w st' } (.exit w)) := by
+  obtain ⟨heldI, effI, accSock, boundSock, noAcc, startI, noAnn, aliveI, accI, pathI, decI, quietI, badSpawn, badRet, monHist, freshI⟩ := h
+  have hnacc : isAccepting st' = false := by cases st' <;> first | rfl | (simp [isAlive] at hst)
+  have hnstart : inStartup st' = false := by cases st' <;> first | rfl | (simp [isAlive] at hst)
+  have hlive : s.ws w ≠ .unborn := by rcases hold with ⟨q, hq, _⟩ | hq <;> rw [hq] <;> simp
   constructor
   · exact heldI
   · exact effI
   · intro hc w' hw'
     simp only [emit_ws, emit_sock] at hw' ⊢
     by_cases he : w' = w
-    · subst he; simp [upd, isAccepting] at hw'
+    · subst he; simp [upd, hnacc] at hw'
     · simp only [upd, he, if_false] at hw'; exact accSock hc w' hw'
-  · intro hc t hg w'
+  · intro hc w' hw'
+    simp only [emit_ws, emit_sock] at hw' ⊢
+    by_cases he : w' = w
+    · subst he; simp only [upd, if_true] at hw'; rw [hw'] at hst; cases hst
+    · simp only [upd, he, if_false] at hw'; exact boundSock hc w' hw'
+  · intro hc t hg w' hw'
+    simp only [emit_ws, emit_pc] at hw' hg ⊢
+    by_cases he : w' = w
+    · subst he; simp [upd, hnacc] at hw'
+    · simp only [upd, he, if_false] at hw'; exact noAcc hc t hg w' hw'
+  · intro w' hw'
+    simp only [emit_ws, emit_pc] at hw' ⊢
+    by_cases he : w' = w
+    · subst he; simp [upd, hnstart] at hw'
+    · simp only [upd, he, if_false] at hw'; exact startI w' hw'
+  · intro w'
     simp only [emit_ws]
     by_cases he : w' = w
-    · subst he; simp [upd, isAccepting]
-    · simp only [upd, he, if_false]; exact noAcc hc t hg w'
+    · subst he; simp only [upd, if_true]; intro hh; rw [hh] at hst; cases hst
+    · simp only [upd, he, if_false]; exact noAnn w'
   · intro w'
     simp only [emit_mon, emit_ws, Spec.LMon.step, List.mem_filter, bne_iff_ne, ne_eq]
     by_cases he : w' = w
-    · subst he; simp [upd, isAccepting]
+    · subst he; simp [upd, hst]
     · simp only [upd, he, if_false, not_false_eq_true, and_true]; exact aliveI w'
+  · intro w'
+    simp only [emit_mon, emit_ws, Spec.LMon.step, List.mem_filter, bne_iff_ne, ne_eq]
+    by_cases he : w' = w
+    · subst he; simp [upd, hnacc]
+    · simp only [upd, he, if_false, not_false_eq_true, and_true]; exact accI w'
   · simpa [Spec.LMon.step] using pathI
   · intro hc t t0 hg
     simp only [emit_clobbered] at hc
@@ -553,7 +768,247 @@ theorem inv_wExit (h : Inv idle s) (w : Wid) (q : Nat) (hw : s.ws w = .accepting
     refine ⟨h1, fun hlt => ?_⟩
     obtain ⟨w', q', hs1, hw1, hq1⟩ := h2 hlt
     have he : w' ≠ w := by
-      intro e; subst e; rw [hw] at hw1; cases hw1; omega
+      intro e; subst e
+      rcases hold with ⟨q, hq, hle⟩ | hq
+      · rw [hq] at hw1; cases hw1; omega
+      · rw [hq] at hw1; cases hw1
+    exact ⟨w', q', hs1, by simp only [upd, he, if_false]; exact hw1, hq1⟩
+  · intro w' q' hw'
+    simp only [emit_ws, emit_now] at hw' ⊢
+    by_cases he : w' = w
+    · subst he; simp only [upd, if_true] at hw'; rw [hw'] at hst; cases hst
+    · simp only [upd, he, if_false] at hw'; exact quietI w' q' hw'
+  · intro hc; simpa [Spec.LMon.step] using badSpawn hc
+  · intro hc; simpa [Spec.LMon.step] using badRet hc
+  · simp only [emit_mon, emit_hist, lrun_snoc]; rw [← monHist]
+  · intro w' hw'
+    show upd s.ws w st' w' = .unborn
+    by_cases he : w' = w
+    · subst he; exact absurd (freshI _ hw') hlive
+    · simp only [upd, he, if_false]; exact freshI w' hw'
+
+/-- the launcher that waits for a worker in start-up -/
+theorem Inv.waiter {idle : Nat} {s : St} (h : Inv idle s) {w : Wid} (hs : inStartup (s.ws w) = true) :
+    ∃ t g, s.pc t = .waiting g w ∧
+      (s.clobbered = false → ∀ w', isAccepting (s.ws w') = true → w' = w) ∧
+      (∀ w', inStartup (s.ws w') = true → w' = w) := by
+  obtain ⟨t, g, hpc⟩ := h.startI w hs
+  refine ⟨t, g, hpc, ?_, ?_⟩
+  · intro hc w' hw'
+    have := h.noAcc hc t (by rw [hpc]; rfl) w' hw'
+    rw [hpc] at this; simp only [waitsFor, Option.some.injEq] at this; exact this.symm
+  · intro w' hw'
+    obtain ⟨t', g', hpc'⟩ := h.startI w' hw'
+    have : t = t' := h.mutex (by rw [hpc]; rfl) (by rw [hpc']; rfl)
+    subst this; rw [hpc] at hpc'; cases hpc'; rfl
+
+/-- worker start-up: `_unlink_stale_unix_socket` -/
+theorem inv_wClear (h : Inv idle s) (w : Wid) (hw : s.ws w = .prechecked) :
+    Inv idle { rmSock idle s with ws := upd s.ws w .cleared } := by
+  obtain ⟨t, g, hpc, honly, hsolo⟩ := h.waiter (w := w) (by rw [hw]; rfl)
+  have noacc : s.clobbered = false → ∀ w', isAccepting (s.ws w') = false := by
+    intro hc w'
+    cases ha : isAccepting (s.ws w') with
+    | false => rfl
+    | true => have := honly hc w' ha; subst this; rw [hw] at ha; cases ha
+  have nobound : ∀ w', s.ws w' ≠ .bound := by
+    intro w' hb
+    have := hsolo w' (by rw [hb]; rfl); subst this; rw [hw] at hb; cases hb
+  have hA : ∀ w', isAccepting (upd s.ws w .cleared w') = isAccepting (s.ws w') := by
+    intro w'; by_cases he : w' = w
+    · subst he; simp [upd, hw, isAccepting]
+    · simp [upd, he]
+  constructor
+  · intro t' g' hg'; simp only [rmSock_held]; exact h.heldI t' g' (by simpa using hg')
+  · intro t' g' hg'; simp only [rmSock_lockGen]; exact h.effI t' g' (by simpa using hg')
+  · intro hc w' hw'
+    have hw'' : isAccepting (upd s.ws w .cleared w') = true := hw'
+    rw [hA, noacc (by simpa using hc) w'] at hw''; cases hw''
+  · intro hc w' hw'
+    have hw'' : upd s.ws w .cleared w' = .bound := hw'
+    by_cases he : w' = w
+    · subst he; simp [upd] at hw''
+    · simp only [upd, he, if_false] at hw''; exact absurd hw'' (nobound w')
+  · intro hc t' _ w' hw'
+    have hw'' : isAccepting (upd s.ws w .cleared w') = true := hw'
+    rw [hA, noacc (by simpa using hc) w'] at hw''; cases hw''
+  · intro w' hw'
+    have hw'' : inStartup (upd s.ws w .cleared w') = true := hw'
+    show ∃ t' g', (rmSock idle s).pc t' = .waiting g' w'
+    simp only [rmSock_pc]
+    by_cases he : w' = w
+    · subst he; exact ⟨t, g, hpc⟩
+    · simp only [upd, he, if_false] at hw''; exact h.startI w' hw''
+  · intro w'
+    show upd s.ws w .cleared w' ≠ .announced
+    by_cases he : w' = w
+    · subst he; simp [upd]
+    · simp only [upd, he, if_false]; exact h.noAnn w'
+  · intro w'
+    show w' ∈ (rmSock idle s).mon.alive ↔ isAlive (upd s.ws w .cleared w') = true
+    simp only [rmSock_alive]
+    by_cases he : w' = w
+    · subst he; have := h.aliveI w'; rw [hw] at this; simpa [upd, isAlive] using this
+    · simp only [upd, he, if_false]; exact h.aliveI w'
+  · intro w'
+    show w' ∈ (rmSock idle s).mon.acc ↔ isAccepting (upd s.ws w .cleared w') = true
+    simp only [rmSock_acc]; rw [hA]; exact h.accI w'
+  · show (rmSock idle s).mon.path = (rmSock idle s).sock
+    simp only [rmSock_sock]; exact rmSock_path idle s h.pathI
+  · intro hc t' t0 hg'
+    have hc' : s.clobbered = false := by simpa using hc
+    have hg'' : decidedAt (s.pc t') = some t0 := by simpa using hg'
+    show t0 ≤ (rmSock idle s).now ∧ ((rmSock idle s).now < t0 + idle →
+      ∃ w' q, (rmSock idle s).sock = some w' ∧ upd s.ws w .cleared w' = .accepting q ∧ t0 ≤ q)
+    simp only [rmSock_now, rmSock_sock]
+    obtain ⟨h1, h2⟩ := h.decI hc' t' t0 hg''
+    refine ⟨h1, fun hlt => ?_⟩
+    obtain ⟨w', q', _, hw1, _⟩ := h2 hlt
+    have := noacc hc' w'; rw [hw1] at this; cases this
+  · intro w' q' hw'
+    have hw'' : upd s.ws w .cleared w' = .accepting q' := hw'
+    show q' ≤ (rmSock idle s).now
+    simp only [rmSock_now]
+    by_cases he : w' = w
+    · subst he; simp [upd] at hw''
+    · simp only [upd, he, if_false] at hw''; exact h.quietI w' q' hw''
+  · intro hc; show (rmSock idle s).mon.badSpawn = false; simp only [rmSock_badSpawn]; exact h.badSpawn (by simpa using hc)
+  · intro hc; show (rmSock idle s).mon.badRet = false; simp only [rmSock_badRet]; exact h.badRet (by simpa using hc)
+  · exact rmSock_monHist idle s h.monHist
+  · intro w' hw'
+    show upd s.ws w .cleared w' = .unborn
+    have hw'' : s.nextW ≤ w' := by simpa using hw'
+    by_cases he : w' = w
+    · subst he; have := h.freshI _ hw''; rw [hw] at this; cases this
+    · simp only [upd, he, if_false]; exact h.freshI w' hw''
+
+/-- worker start-up: `sock.bind(path)` — from now on the path names this worker -/
+theorem inv_wBind (h : Inv idle s) (w : Wid) (hw : s.ws w = .cleared) :
+    Inv idle (emit idle { s with ws := upd s.ws w .bound, sock := some w } (.bind w)) := by
+  obtain ⟨t, g, hpc, honly, hsolo⟩ := h.waiter (w := w) (by rw [hw]; rfl)
+  have noacc : s.clobbered = false → ∀ w', isAccepting (s.ws w') = false := by
+    intro hc w'
+    cases ha : isAccepting (s.ws w') with
+    | false => rfl
+    | true => have := honly hc w' ha; subst this; rw [hw] at ha; cases ha
+  have hA : ∀ w', isAccepting (upd s.ws w .bound w') = isAccepting (s.ws w') := by
+    intro w'; by_cases he : w' = w
+    · subst he; simp [upd, hw, isAccepting]
+    · simp [upd, he]
+  obtain ⟨heldI, effI, accSock, boundSock, noAcc, startI, noAnn, aliveI, accI, pathI, decI, quietI, badSpawn, badRet, monHist, freshI⟩ := h
+  constructor
+  · exact heldI
+  · exact effI
+  · intro hc w' hw'
+    simp only [emit_clobbered] at hc
+    simp only [emit_ws] at hw'
+    rw [hA, noacc hc w'] at hw'; cases hw'
+  · intro hc w' hw'
+    simp only [emit_ws, emit_sock] at hw' ⊢
+    by_cases he : w' = w
+    · subst he; rfl
+    · simp only [upd, he, if_false] at hw'
+      have := hsolo w' (by rw [hw']; rfl); exact absurd this he
+  · intro hc t' _ w' hw'
+    simp only [emit_clobbered] at hc
+    simp only [emit_ws] at hw'
+    rw [hA, noacc hc w'] at hw'; cases hw'
+  · intro w' hw'
+    simp only [emit_ws, emit_pc] at hw' ⊢
+    by_cases he : w' = w
+    · subst he; exact ⟨t, g, hpc⟩
+    · simp only [upd, he, if_false] at hw'; exact startI w' hw'
+  · intro w'
+    simp only [emit_ws]
+    by_cases he : w' = w
+    · subst he; simp [upd]
+    · simp only [upd, he, if_false]; exact noAnn w'
+  · intro w'
+    simp only [emit_mon, emit_ws, Spec.LMon.step]
+    by_cases he : w' = w
+    · subst he; have := aliveI w'; rw [hw] at this; simpa [upd, isAlive] using this
+    · simp only [upd, he, if_false]; exact aliveI w'
+  · intro w'; simp only [emit_mon, emit_ws, Spec.LMon.step]; rw [hA]; exact accI w'
+  · simp [Spec.LMon.step]
+  · intro hc t' t0 hg'
+    simp only [emit_clobbered] at hc
+    simp only [emit_pc, emit_now, emit_sock, emit_ws] at hg' ⊢
+    obtain ⟨h1, h2⟩ := decI hc t' t0 hg'
+    refine ⟨h1, fun hlt => ?_⟩
+    obtain ⟨w', q', _, hw1, _⟩ := h2 hlt
+    have := noacc hc w'; rw [hw1] at this; cases this
+  · intro w' q' hw'
+    simp only [emit_ws, emit_now] at hw' ⊢
+    by_cases he : w' = w
+    · subst he; simp [upd] at hw'
+    · simp only [upd, he, if_false] at hw'; exact quietI w' q' hw'
+  · intro hc; simpa [Spec.LMon.step] using badSpawn hc
+  · intro hc; simpa [Spec.LMon.step] using badRet hc
+  · simp only [emit_mon, emit_hist, lrun_snoc]; rw [← monHist]
+  · intro w' hw'
+    show upd s.ws w .bound w' = .unborn
+    by_cases he : w' = w
+    · subst he; have := freshI _ hw'; rw [hw] at this; cases this
+    · simp only [upd, he, if_false]; exact freshI w' hw'
+
+/-- worker start-up: `sock.listen()` before the announcement — the worker is accepting, its launcher is still waiting -/
+theorem inv_wListen (h : Inv idle s) (w : Wid) (hw : s.ws w = .bound) :
+    Inv idle (emit idle { s with ws := upd s.ws w .listening } (.ready w)) := by
+  obtain ⟨t, g, hpc, honly, hsolo⟩ := h.waiter (w := w) (by rw [hw]; rfl)
+  have hmut := @Inv.mutex idle s h
+  obtain ⟨heldI, effI, accSock, boundSock, noAcc, startI, noAnn, aliveI, accI, pathI, decI, quietI, badSpawn, badRet, monHist, freshI⟩ := h
+  constructor
+  · exact heldI
+  · exact effI
+  · intro hc w' hw'
+    simp only [emit_clobbered] at hc
+    simp only [emit_ws, emit_sock] at hw' ⊢
+    by_cases he : w' = w
+    · subst he; exact boundSock hc _ hw
+    · simp only [upd, he, if_false] at hw'; exact accSock hc w' hw'
+  · intro hc w' hw'
+    simp only [emit_clobbered] at hc
+    simp only [emit_ws, emit_sock] at hw' ⊢
+    by_cases he : w' = w
+    · subst he; simp [upd] at hw'
+    · simp only [upd, he, if_false] at hw'; exact boundSock hc w' hw'
+  · intro hc t' hg' w' hw'
+    simp only [emit_clobbered] at hc
+    simp only [emit_ws, emit_pc] at hw' hg' ⊢
+    by_cases he : w' = w
+    · subst he
+      obtain ⟨g', hg''⟩ := pastFailedProbe_effective hg'
+      have : t' = t := hmut hg'' (by rw [hpc]; rfl)
+      subst this; rw [hpc]; rfl
+    · simp only [upd, he, if_false] at hw'; exact noAcc hc t' hg' w' hw'
+  · intro w' hw'
+    simp only [emit_ws, emit_pc] at hw' ⊢
+    by_cases he : w' = w
+    · subst he; exact ⟨t, g, hpc⟩
+    · simp only [upd, he, if_false] at hw'; exact startI w' hw'
+  · intro w'
+    simp only [emit_ws]
+    by_cases he : w' = w
+    · subst he; simp [upd]
+    · simp only [upd, he, if_false]; exact noAnn w'
+  · intro w'
+    simp only [emit_mon, emit_ws, Spec.LMon.step]
+    by_cases he : w' = w
+    · subst he; have := aliveI w'; rw [hw] at this; simpa [upd, isAlive] using this
+    · simp only [upd, he, if_false]; exact aliveI w'
+  · intro w'
+    simp only [emit_mon, emit_ws, Spec.LMon.step, List.mem_cons]
+    by_cases he : w' = w
+    · subst he; simp [upd, isAccepting]
+    · simp only [upd, he, if_false, false_or]; exact accI w'
+  · simpa [Spec.LMon.step] using pathI
+  · intro hc t' t0 hg'
+    simp only [emit_clobbered] at hc
+    simp only [emit_pc, emit_now, emit_sock, emit_ws] at hg' ⊢
+    obtain ⟨h1, h2⟩ := decI hc t' t0 hg'
+    refine ⟨h1, fun hlt => ?_⟩
+    obtain ⟨w', q', hs1, hw1, hq1⟩ := h2 hlt
+    have he : w' ≠ w := by intro e; subst e; rw [hw] at hw1; cases hw1
     exact ⟨w', q', hs1, by simp only [upd, he, if_false]; exact hw1, hq1⟩
   · intro w' q' hw'
     simp only [emit_ws, emit_now] at hw' ⊢
@@ -563,43 +1018,31 @@ theorem inv_wExit (h : Inv idle s) (w : Wid) (q : Nat) (hw : s.ws w = .accepting
   · intro hc; simpa [Spec.LMon.step] using badSpawn hc
   · intro hc; simpa [Spec.LMon.step] using badRet hc
   · simp only [emit_mon, emit_hist, lrun_snoc]; rw [← monHist]
-
-/-- steps of a worker that is not accepting (before and after) and that do not touch the socket path -/
-theorem inv_wQuiet (h : Inv idle s) (w : Wid) (st' : WSt) (hw : isAccepting (s.ws w) = false) (hst : isAccepting st' = false) :
-    Inv idle { s with ws := upd s.ws w st' } := by
-  obtain ⟨heldI, effI, accSock, noAcc, aliveI, pathI, decI, quietI, badSpawn, badRet, monHist⟩ := h
-  have hsame : ∀ w', isAccepting (upd s.ws w st' w') = isAccepting (s.ws w') := by
-    intro w'
+  · intro w' hw'
+    show upd s.ws w .listening w' = .unborn
     by_cases he : w' = w
-    · subst he; simp [upd, hw, hst]
-    · simp [upd, he]
-  refine ⟨heldI, effI, ?_, ?_, ?_, pathI, ?_, ?_, badSpawn, badRet, monHist⟩
-  · intro hc w' hw'; rw [hsame] at hw'; exact accSock hc w' hw'
-  · intro hc t hg w'; rw [hsame]; exact noAcc hc t hg w'
-  · intro w'; rw [hsame]; exact aliveI w'
-  · intro hc t t0 hg
-    obtain ⟨h1, h2⟩ := decI hc t t0 hg
-    refine ⟨h1, fun hlt => ?_⟩
-    obtain ⟨w', q', hs1, hw1, hq1⟩ := h2 hlt
-    have he : w' ≠ w := by intro e; subst e; rw [hw1] at hw; cases hw
-    exact ⟨w', q', hs1, by simp only [upd, he, if_false]; exact hw1, hq1⟩
-  · intro w' q' hw'
-    by_cases he : w' = w
-    · subst he; simp only [upd, if_true] at hw'; rw [hw'] at hst; cases hst
-    · simp only [upd, he, if_false] at hw'; exact quietI w' q' hw'
+    · subst he; have := freshI _ hw'; rw [hw] at this; cases this
+    · simp only [upd, he, if_false]; exact freshI w' hw'
 
 /-- the exit-time `os.unlink(path)` of a worker whose identity check had succeeded: it removes whatever the path
 names NOW; if that is another worker's socket the ghost flag `clobbered` is raised -/
 theorem inv_wUnlink (h : Inv idle s) (w : Wid) (hw : s.ws w = .checked true) :
     Inv idle { rmSock idle s with ws := upd s.ws w .gone, clobbered := s.clobbered || clobbers s w } := by
-  obtain ⟨heldI, effI, accSock, noAcc, aliveI, pathI, decI, quietI, badSpawn, badRet, monHist⟩ := h
-  have hnacc : isAccepting (s.ws w) = false := by rw [hw]; rfl
-  have hsame : ∀ w', isAccepting (upd s.ws w .gone w') = isAccepting (s.ws w') := by
+  obtain ⟨heldI, effI, accSock, boundSock, noAcc, startI, noAnn, aliveI, accI, pathI, decI, quietI, badSpawn, badRet, monHist, freshI⟩ := h
+  have hsame : ∀ w', upd s.ws w .gone w' = s.ws w' ∨ (w' = w ∧ upd s.ws w .gone w' = .gone) := by
     intro w'
     by_cases he : w' = w
-    · subst he; simp only [upd, if_true]; rw [hnacc]; rfl
-    · simp [upd, he]
-  -- when the flag stays down, the path named this very worker (or nothing), hence nobody is accepting
+    · right; subst he; exact ⟨rfl, by simp [upd]⟩
+    · left; simp [upd, he]
+  have hA : ∀ w', isAccepting (upd s.ws w .gone w') = isAccepting (s.ws w') := by
+    intro w'; rcases hsame w' with h1 | ⟨h1, h2⟩
+    · rw [h1]
+    · rw [h2, h1, hw]; rfl
+  have hL : ∀ w', isAlive (upd s.ws w .gone w') = isAlive (s.ws w') := by
+    intro w'; rcases hsame w' with h1 | ⟨h1, h2⟩
+    · rw [h1]
+    · rw [h2, h1, hw]; rfl
+  -- when the flag stays down, the path named this very worker (or nothing), hence nobody is accepting or bound
   have key : (s.clobbered || clobbers s w) = false → s.clobbered = false ∧ (s.sock = some w ∨ s.sock = none) := by
     intro hc
     simp only [Bool.or_eq_false_iff] at hc
@@ -618,7 +1061,7 @@ theorem inv_wUnlink (h : Inv idle s) (w : Wid) (hw : s.ws w = .checked true) :
     | true =>
       have h1 := accSock hc w' ha
       rcases hs with hs | hs
-      · rw [hs] at h1; cases h1; rw [hnacc] at ha; cases ha
+      · rw [hs] at h1; cases h1; rw [hw] at ha; cases ha
       · rw [hs] at h1; cases h1
   constructor
   · intro t g hg
@@ -632,15 +1075,39 @@ theorem inv_wUnlink (h : Inv idle s) (w : Wid) (hw : s.ws w = .checked true) :
   · intro hc w' hw'
     obtain ⟨hc0, hs⟩ := key hc
     have hw'' : isAccepting (upd s.ws w .gone w') = true := hw'
-    rw [hsame] at hw''
-    rw [noacc hc0 hs w'] at hw''; cases hw''
-  · intro hc t _ w'
+    rw [hA, noacc hc0 hs w'] at hw''; cases hw''
+  · intro hc w' hw'
     obtain ⟨hc0, hs⟩ := key hc
-    show isAccepting (upd s.ws w .gone w') = false
-    rw [hsame]; exact noacc hc0 hs w'
+    have hw'' : upd s.ws w .gone w' = .bound := hw'
+    rcases hsame w' with h1 | ⟨_, h2⟩
+    · rw [h1] at hw''
+      have h3 := boundSock hc0 w' hw''
+      rcases hs with hs | hs
+      · rw [hs] at h3; cases h3; rw [hw] at hw''; cases hw''
+      · rw [hs] at h3; cases h3
+    · rw [h2] at hw''; cases hw''
+  · intro hc t _ w' hw'
+    obtain ⟨hc0, hs⟩ := key hc
+    have hw'' : isAccepting (upd s.ws w .gone w') = true := hw'
+    rw [hA, noacc hc0 hs w'] at hw''; cases hw''
+  · intro w' hw'
+    have hw'' : inStartup (upd s.ws w .gone w') = true := hw'
+    show ∃ t g, (rmSock idle s).pc t = .waiting g w'
+    simp only [rmSock_pc]
+    rcases hsame w' with h1 | ⟨_, h2⟩
+    · rw [h1] at hw''; exact startI w' hw''
+    · rw [h2] at hw''; cases hw''
   · intro w'
-    show w' ∈ (rmSock idle s).mon.alive ↔ isAccepting (upd s.ws w .gone w') = true
-    simp only [rmSock_alive]; rw [hsame]; exact aliveI w'
+    show upd s.ws w .gone w' ≠ .announced
+    rcases hsame w' with h1 | ⟨_, h2⟩
+    · rw [h1]; exact noAnn w'
+    · rw [h2]; simp
+  · intro w'
+    show w' ∈ (rmSock idle s).mon.alive ↔ isAlive (upd s.ws w .gone w') = true
+    simp only [rmSock_alive]; rw [hL]; exact aliveI w'
+  · intro w'
+    show w' ∈ (rmSock idle s).mon.acc ↔ isAccepting (upd s.ws w .gone w') = true
+    simp only [rmSock_acc]; rw [hA]; exact accI w'
   · show (rmSock idle s).mon.path = (rmSock idle s).sock
     simp only [rmSock_sock]; exact rmSock_path idle s pathI
   · intro hc t t0 hg
@@ -659,9 +1126,9 @@ theorem inv_wUnlink (h : Inv idle s) (w : Wid) (hw : s.ws w = .checked true) :
     have hw'' : upd s.ws w .gone w' = .accepting q' := hw'
     show q' ≤ (rmSock idle s).now
     simp only [rmSock_now]
-    by_cases he : w' = w
-    · subst he; simp [upd] at hw''
-    · simp only [upd, he, if_false] at hw''; exact quietI w' q' hw''
+    rcases hsame w' with h1 | ⟨_, h2⟩
+    · rw [h1] at hw''; exact quietI w' q' hw''
+    · rw [h2] at hw''; cases hw''
   · intro hc
     show (rmSock idle s).mon.badSpawn = false
     simp only [rmSock_badSpawn]; exact badSpawn (key hc).1
@@ -669,12 +1136,18 @@ theorem inv_wUnlink (h : Inv idle s) (w : Wid) (hw : s.ws w = .checked true) :
     show (rmSock idle s).mon.badRet = false
     simp only [rmSock_badRet]; exact badRet (key hc).1
   · exact rmSock_monHist idle s monHist
+  · intro w' hw'
+    show upd s.ws w .gone w' = .unborn
+    have hw'' : s.nextW ≤ w' := by simpa using hw'
+    rcases hsame w' with h1 | ⟨h1, _⟩
+    · rw [h1]; exact freshI w' hw''
+    · subst h1; have := freshI _ hw''; rw [hw] at this; cases this
 
 end steps
 
 /-! ### the invariant holds in every reachable state -/
 
-theorem inv_step {sh : LShape} (hn : sh.nlinkCheck = true) (idle : Nat)
+theorem inv_step {sh : LShape} (hn : sh.nlinkCheck = true) (hl : sh.listenFirst = true) (idle : Nat)
     (s : St) (l : Label) (s' : St) (h : Inv idle s) (hst : step sh idle s l = some s') : Inv idle s' := by
   cases l with
   | tick d => simp only [step, Option.some.injEq] at hst; subst hst; exact inv_tick h d
@@ -684,7 +1157,7 @@ theorem inv_step {sh : LShape} (hn : sh.nlinkCheck = true) (idle : Nat)
     next hpc =>
       cases hst
       exact inv_pc h t _ s.hasMeta (by intro g hg; cases hg) (by intro g hg; cases hg) (by intro hg; cases hg)
-        (by intro t0 hg; cases hg)
+        (by rw [hpc]; rfl) (by intro t0 hg; cases hg)
     next => cases hst
   | lockOpen t =>
     simp only [step] at hst
@@ -692,7 +1165,7 @@ theorem inv_step {sh : LShape} (hn : sh.nlinkCheck = true) (idle : Nat)
     next r hpc =>
       cases hst
       exact inv_pc h t _ s.hasMeta (by intro g hg; cases hg) (by intro g hg; cases hg) (by intro hg; cases hg)
-        (by intro t0 hg; cases hg)
+        (by rw [hpc]; rfl) (by intro t0 hg; cases hg)
     next => cases hst
   | lockFlock t ok =>
     simp only [step] at hst
@@ -707,7 +1180,7 @@ theorem inv_step {sh : LShape} (hn : sh.nlinkCheck = true) (idle : Nat)
         · cases hst
           cases r <;>
           exact inv_pc h t _ s.hasMeta (by intro g hg; cases hg) (by intro g hg; cases hg) (by intro hg; cases hg)
-            (by intro t0 hg; cases hg)
+            (by rw [hpc]; rfl) (by intro t0 hg; cases hg)
     next => cases hst
   | lockVerify t ok =>
     simp only [step] at hst
@@ -724,7 +1197,7 @@ theorem inv_step {sh : LShape} (hn : sh.nlinkCheck = true) (idle : Nat)
         next =>
           cases hst
           cases r <;>
-          exact inv_unlock h t g _ (by rw [hpc]; rfl) rfl rfl rfl (by intro t0 hg; cases hg)
+          exact inv_unlock h t g _ (by rw [hpc]; rfl) rfl rfl rfl (by rw [hpc]; rfl) (by intro t0 hg; cases hg)
       next => cases hst
     next => cases hst
   | lockTimeout t =>
@@ -733,7 +1206,7 @@ theorem inv_step {sh : LShape} (hn : sh.nlinkCheck = true) (idle : Nat)
     next hpc =>
       cases hst
       exact inv_pc h t _ s.hasMeta (by intro g hg; cases hg) (by intro g hg; cases hg) (by intro hg; cases hg)
-        (by intro t0 hg; cases hg)
+        (by rw [hpc]; rfl) (by intro t0 hg; cases hg)
     next => cases hst
   | probe t ok =>
     simp only [step] at hst
@@ -765,12 +1238,12 @@ theorem inv_step {sh : LShape} (hn : sh.nlinkCheck = true) (idle : Nat)
     next g hpc =>
       split at hst
       · cases hst
-        exact inv_rmSock h t (.metaW g) (by rw [hpc]; rfl) (by intro g' hg; rw [hpc]; exact hg)
+        exact inv_rmSock h t (.metaW g) (by rw [hpc]; rfl) (by rw [hpc]; rfl) (by intro g' hg; rw [hpc]; exact hg)
           (by intro g' hg; rw [hpc]; exact hg) rfl
       · split at hst
         · cases hst
           exact inv_pc h t _ s.hasMeta (by intro g' hg; rw [hpc]; exact hg) (by intro g' hg; rw [hpc]; exact hg)
-            (by intro hg; cases hg) (by intro t0 hg; cases hg)
+            (by intro hg; cases hg) (by rw [hpc]; rfl) (by intro t0 hg; cases hg)
         · cases hst
     next => cases hst
   | writeMeta t =>
@@ -779,7 +1252,7 @@ theorem inv_step {sh : LShape} (hn : sh.nlinkCheck = true) (idle : Nat)
     next g hpc =>
       cases hst
       exact inv_pc h t _ true (by intro g' hg; rw [hpc]; exact hg) (by intro g' hg; rw [hpc]; exact hg)
-        (by intro _; rw [hpc]; rfl) (by intro t0 hg; cases hg)
+        (by intro _; rw [hpc]; rfl) (by rw [hpc]; rfl) (by intro t0 hg; cases hg)
     next => cases hst
   | spawn t w =>
     simp only [step] at hst
@@ -789,26 +1262,43 @@ theorem inv_step {sh : LShape} (hn : sh.nlinkCheck = true) (idle : Nat)
       next hw => cases hst; subst hw; exact inv_spawn h t g hpc
       next => cases hst
     next => cases hst
+  | spawnReady t =>
+    simp only [step] at hst
+    split at hst
+    next g w hpc =>
+      split at hst
+      next q hw =>
+        cases hst
+        exact inv_leaveWait h t g w hpc _ (by rw [hw]; rfl) rfl rfl rfl (by intro t0 hg; cases hg; exact hw)
+      next hw => exact absurd hw (h.noAnn w)
+      next => cases hst
+    next => cases hst
   | spawnFail t =>
     simp only [step] at hst
     split at hst
     next g hpc =>
       cases hst
       exact inv_pc h t _ s.hasMeta (by intro g' hg; rw [hpc]; exact hg) (by intro g' hg; rw [hpc]; exact hg)
-        (by intro hg; cases hg) (by intro t0 hg; cases hg)
+        (by intro hg; cases hg) (by rw [hpc]; rfl) (by intro t0 hg; cases hg)
+    next g w hpc =>
+      split at hst
+      next hw =>
+        cases hst
+        exact inv_leaveWait h t g w hpc _ (by rw [hw]; rfl) rfl rfl rfl (by intro t0 hg; cases hg)
+      next => cases hst
     next => cases hst
   | release t =>
     simp only [step] at hst
     split at hst
     next g t0 hpc =>
       cases hst
-      exact inv_unlock h t g _ (by rw [hpc]; rfl) rfl rfl rfl (by intro t1 hg; rw [hpc]; exact hg)
+      exact inv_unlock h t g _ (by rw [hpc]; rfl) rfl rfl rfl (by rw [hpc]; rfl) (by intro t1 hg; rw [hpc]; exact hg)
     next g hpc =>
       cases hst
-      exact inv_unlock h t g _ (by rw [hpc]; rfl) rfl rfl rfl (by intro t1 hg; cases hg)
+      exact inv_unlock h t g _ (by rw [hpc]; rfl) rfl rfl rfl (by rw [hpc]; rfl) (by intro t1 hg; cases hg)
     next g hpc =>
       cases hst
-      exact inv_unlock h t g _ (by rw [hpc]; rfl) rfl rfl rfl (by intro t1 hg; cases hg)
+      exact inv_unlock h t g _ (by rw [hpc]; rfl) rfl rfl rfl (by rw [hpc]; rfl) (by intro t1 hg; cases hg)
     next => cases hst
   | ret t =>
     simp only [step] at hst
@@ -821,14 +1311,14 @@ theorem inv_step {sh : LShape} (hn : sh.nlinkCheck = true) (idle : Nat)
     next hpc =>
       cases hst
       exact inv_pc h t _ s.hasMeta (by intro g hg; cases hg) (by intro g hg; cases hg) (by intro hg; cases hg)
-        (by intro t0 hg; cases hg)
+        (by rw [hpc]; rfl) (by intro t0 hg; cases hg)
     next => cases hst
   | gcUnlinkSock t =>
     simp only [step] at hst
     split at hst
     next g hpc =>
       cases hst
-      exact inv_rmSock h t (.gUnlinkMeta g) (by rw [hpc]; rfl) (by intro g' hg; rw [hpc]; exact hg)
+      exact inv_rmSock h t (.gUnlinkMeta g) (by rw [hpc]; rfl) (by rw [hpc]; rfl) (by intro g' hg; rw [hpc]; exact hg)
         (by intro g' hg; rw [hpc]; exact hg) rfl
     next => cases hst
   | gcUnlinkMeta t =>
@@ -837,25 +1327,70 @@ theorem inv_step {sh : LShape} (hn : sh.nlinkCheck = true) (idle : Nat)
     next g hpc =>
       cases hst
       exact inv_pc h t _ false (by intro g' hg; rw [hpc]; exact hg) (by intro g' hg; rw [hpc]; exact hg)
-        (by intro hg; cases hg) (by intro t0 hg; cases hg)
+        (by intro hg; cases hg) (by rw [hpc]; rfl) (by intro t0 hg; cases hg)
     next => cases hst
   | gcUnlinkLock t =>
     simp only [step] at hst
     split at hst
     next g hpc => cases hst; exact inv_gcUnlinkLock h t g hpc
     next => cases hst
+  | wCheck w ok =>
+    simp only [step] at hst
+    split at hst
+    next hw =>
+      split at hst
+      · split at hst
+        · cases hst
+          exact inv_wMove h w _ (by rw [hw]; rfl) (by rw [hw]; rfl) (by intro _; rw [hw]; rfl) (by intro hb; cases hb)
+            (by simp) (by rw [hw]; simp) (by intro q hq; cases hq) (by intro q0 hq; rw [hw] at hq; cases hq)
+        · cases hst; exact inv_wGone h w _ rfl (Or.inr hw)
+      · cases hst
+    next => cases hst
+  | wClear w =>
+    simp only [step] at hst
+    split at hst
+    next hw => cases hst; exact inv_wClear h w hw
+    next => cases hst
+  | wBind w =>
+    simp only [step] at hst
+    split at hst
+    next hw =>
+      split at hst
+      · cases hst; exact inv_wBind h w hw
+      · cases hst
+    next => cases hst
+  | wListen w =>
+    simp only [step, hl] at hst
+    split at hst
+    next hw => simp only [if_true] at hst; cases hst; exact inv_wListen h w hw
+    next hw => exact absurd hw (h.noAnn w)
+    next => cases hst
+  | wAnnounce w =>
+    simp only [step, hl] at hst
+    split at hst
+    next hw =>
+      cases hst
+      exact inv_wMove h w _ (by rw [hw]; rfl) (by rw [hw]; rfl) (by intro hb; cases hb) (by intro hb; cases hb)
+        (by simp) (by rw [hw]; simp)
+        (by intro q hq; cases hq; exact ⟨Nat.le_refl _, by intro q0 hq0; rw [hw] at hq0; cases hq0⟩)
+        (by intro q0 hq; rw [hw] at hq; cases hq)
+    next hw => simp at hst
+    next => cases hst
   | wExit w =>
     simp only [step] at hst
     split at hst
     next q hw =>
       split at hst
-      next hq => cases hst; exact inv_wExit h w q hw hq
+      next hq => cases hst; exact inv_wGone h w _ rfl (Or.inl ⟨q, hw, hq⟩)
       next => cases hst
     next => cases hst
   | wStat w =>
     simp only [step] at hst
     split at hst
-    next hw => cases hst; exact inv_wQuiet h w _ (by rw [hw]; rfl) rfl
+    next hw =>
+      cases hst
+      exact inv_wMove h w _ (by rw [hw]; rfl) (by rw [hw]; rfl) (by intro hb; cases hb) (by intro hb; cases hb)
+        (by simp) (by rw [hw]; simp) (by intro q hq; cases hq) (by intro q0 hq; rw [hw] at hq; cases hq)
     next => cases hst
   | wUnlink w =>
     simp only [step] at hst
@@ -863,7 +1398,10 @@ theorem inv_step {sh : LShape} (hn : sh.nlinkCheck = true) (idle : Nat)
     next own hw =>
       split at hst
       next ho => cases hst; subst ho; exact inv_wUnlink h w hw
-      next => cases hst; exact inv_wQuiet h w _ (by rw [hw]; rfl) rfl
+      next =>
+        cases hst
+        exact inv_wMove h w _ (by rw [hw]; rfl) (by rw [hw]; rfl) (by intro hb; cases hb) (by intro hb; cases hb)
+          (by simp) (by rw [hw]; simp) (by intro q hq; cases hq) (by intro q0 hq; rw [hw] at hq; cases hq)
     next => cases hst
   | vars sk m g =>
     simp only [step] at hst
@@ -871,9 +1409,9 @@ theorem inv_step {sh : LShape} (hn : sh.nlinkCheck = true) (idle : Nat)
     · cases hst; exact h
     · cases hst
 
-theorem inv_reachable {sh : LShape} (hn : sh.nlinkCheck = true) (idle : Nat) :
+theorem inv_reachable {sh : LShape} (hn : sh.nlinkCheck = true) (hl : sh.listenFirst = true) (idle : Nat) :
     ∀ s, (ts sh idle).Reachable s → Inv idle s :=
-  TS.invariant_of_step (ts sh idle) (Inv idle) (inv_init idle) (fun s l s' hi hst => inv_step hn idle s l s' hi hst)
+  TS.invariant_of_step (ts sh idle) (Inv idle) (inv_init idle) (fun s l s' hi hst => inv_step hn hl idle s l s' hi hst)
 
 end Launch
 end VgiVerif.C33
